@@ -5,6 +5,7 @@ import (
 	"context"
 	"errors"
 	"fmt"
+	"os"
 	"reflect"
 	"sort"
 	"strings"
@@ -103,11 +104,28 @@ func short(s string) string {
 	return s
 }
 
+const checkName = "gen"
+
+// findingOpen: exclusions are switched on by the open entries of known_findings for C02 (VERIF_TRIAGE_EXCLUDE=all or
+// a comma-separated slug list switches them on for the triage aid only).
+func findingOpen(slug string) bool {
+	if v := os.Getenv("VERIF_TRIAGE_EXCLUDE"); v != "" && os.Getenv("VERIF_TRIAGE") != "" {
+		return v == "all" || strings.Contains(","+v+",", ","+slug+",")
+	}
+	return evid.R.KnownOpen("C02-" + slug)
+}
+
 func oracle(c qcase.Case) (evid.Info, error) {
 	info := evid.Info{}
 	model, err := xlate.Parse(c.Query)
 	if err != nil {
 		info.Skip = "parse-rejected"
+		return info, nil
+	}
+	if slug := qcase.ExcludedBy(c, model, findingOpen); slug != "" {
+		// a listed, still open defect: the shape is not evaluated, it is counted
+		info.Skip = "excluded:C02-" + slug
+		evid.R.Excluded(checkName)
 		return info, nil
 	}
 	mapper := xlate.FixedMapper(c.AllKinds()...)
@@ -221,5 +239,5 @@ func oracle(c qcase.Case) (evid.Info, error) {
 }
 
 func TestC02Generated(t *testing.T) {
-	evid.Prop(t, "gen", evid.R.N(1500, 15000), genCase, oracle)
+	evid.Prop(t, checkName, evid.R.N(1500, 15000), genCase, oracle)
 }
